@@ -370,6 +370,13 @@ impl VM {
                     }
                     let [ip, num_locals] = obj.as_function();
 
+                    // A function has a slot for each of its parameters, so more arguments than slots can not be right
+                    if num_args as u32 > num_locals {
+                        return Err(Error::ArgumentError(format!(
+                            "functie kreeg {num_args} argumenten, maar verwacht er hooguit {num_locals}"
+                        )));
+                    }
+
                     // Make room on the stack for any local variables defined inside this function
                     for _ in 0..num_locals - num_args as u32 {
                         self.push(Object::null());
